@@ -186,7 +186,7 @@ static void e_sig(int sig)
 static void e_install(void)
 {
     static char altstack[1 << 16];
-    stack_t ss; struct sigaction sa; int sigs[] = { SIGSEGV, SIGBUS, SIGFPE, SIGABRT, SIGALRM, SIGILL };
+    stack_t ss; struct sigaction sa; int sigs[] = { SIGSEGV, SIGBUS, SIGFPE, SIGABRT, SIGALRM, SIGPROF, SIGILL };
     size_t i;
     ss.ss_sp = altstack; ss.ss_size = sizeof altstack; ss.ss_flags = 0;
     sigaltstack(&ss, NULL);
@@ -199,7 +199,11 @@ static void e_install(void)
 static void e_timer(int secs)
 {
     struct itimerval it; memset(&it, 0, sizeof it);
+    /* a spinning call burns CPU time: the limit is on the CPU time of this process, so that a busy machine does not
+     * look like a hang; a generous wall-clock limit catches a call that blocks */
     it.it_value.tv_sec = secs;
+    setitimer(ITIMER_PROF, &it, NULL);
+    it.it_value.tv_sec = secs ? secs * 40 : 0;
     setitimer(ITIMER_REAL, &it, NULL);
 }
 
@@ -234,7 +238,7 @@ static const char *e_apply(const vop_t *op, jb_t *res)
     jb_printf(res, ",\"ev\":[%s]", e_ev_clean());
     switch (sig) {
     case SIGABRT: return "abort";
-    case SIGALRM: return "hang";
+    case SIGALRM: case SIGPROF: return "hang";
     case SIGFPE:  return "fpe";
     default:      return "segv";
     }
